@@ -92,11 +92,16 @@ pub fn run_history(case: &Value) -> Value {
         }
     }
     let preds = preds; // frozen: sentences borrow from here
+    let ops = case["ops"].as_array().cloned().unwrap_or_default();
+    // the texts of the raw updates, owned here for the whole history: every second raw update lends its text to the sentence
+    let raw_texts: Vec<String> = ops
+        .iter()
+        .map(|op| if op["op"] == "up_raw" { cps_to_string(&op["s"]) } else { String::new() })
+        .collect();
     let mut s: Sentence = Sentence::default();
     let mut steps = vec![];
-    let ops = case["ops"].as_array().cloned().unwrap_or_default();
     let mut n_raw_updates = 0usize;
-    for op in &ops {
+    for (op_index, op) in ops.iter().enumerate() {
         let name = op["op"].as_str().unwrap_or("");
         let res: Value = match name {
             "new_raw" | "new_tok" | "new_part" | "build" => {
@@ -124,8 +129,8 @@ pub fn run_history(case: &Value) -> Value {
                 if name == "up_raw" {
                     n_raw_updates += 1;
                 }
-                let borrowed: Option<&'static str> =
-                    if name == "up_raw" && n_raw_updates % 2 == 0 { Some(Box::leak(text.clone().into_boxed_str())) } else { None };
+                let borrowed: Option<&str> =
+                    if name == "up_raw" && n_raw_updates % 2 == 0 { Some(raw_texts[op_index].as_str()) } else { None };
                 let r = catch_unwind(AssertUnwindSafe(|| match name {
                     "up_raw" => match borrowed {
                         Some(b) => s.update_raw(b).is_ok(),
